@@ -253,6 +253,15 @@ Definition spec_set (f : field_desc) (v : Z) (s : strukt) : res strukt :=
     | RNone => Ok s1
     end).
 
+(* SPECIFICATION of the pipelined accessor X_Future.F() on a resolved answer: the object in the field's
+   pointer slot, the field's default when the slot is null; no discriminant test (capnp.Future.Field) *)
+Definition spec_future (f : field_desc) (s : strukt) : Z :=
+  match fd_kind f with
+  | KAnyPtr => s_ptr s (fd_off f)   (* promiseFieldAnyPointer passes no default (AnyPointer fields
+                                        cannot declare one in the schema language) *)
+  | k => ptr_value k (fd_default f) (s_ptr s (fd_off f))
+  end.
+
 Definition spec_has (f : field_desc) (s : strukt) : bool :=
   match field_range f with
   | RPtr slot => spec_active f s && negb (s_ptr s slot =? 0)
@@ -500,6 +509,14 @@ Definition fields_match (l : list (field_desc * accessor_ir)) : bool :=
   forallb (fun p => ir_eqb (snd p) (gen_accessor (fst p))) l.
 Definition nodes_match (l : list (node_desc * node_ir)) : bool :=
   forallb (fun p => nir_eqb (snd p) (gen_node (fst p))) l.
+
+(* type references: (type id the schema gives, node ids the emitted qualified Go names resolve to) *)
+Definition typerefs_match (l : list (Z * list Z)) : bool :=
+  forallb (fun p => match snd p with [] => false | _ => forallb (Z.eqb (fst p)) (snd p) end) l.
+
+(* pointer defaults: (kind, ((slot, default bytes) of the schema, (slot, default bytes) emitted)) *)
+Definition defrefs_match (l : list (Z * ((Z * list Z) * (Z * list Z)))) : bool :=
+  forallb (fun p => (fst (fst (snd p)) =? fst (snd (snd p))) && zlist_eqb (snd (fst (snd p))) (snd (snd (snd p)))) l.
 
 (* ------------------------------------------------------------------ well-formed descriptors *)
 (* what every CodeGeneratorRequest produced by the schema compiler satisfies: uint32 offsets whose
